@@ -10,6 +10,21 @@ CHECKS = {
    "Every size 1..64 (thorough 1..300) plus large sizes, four access patterns each, >=50*S operations: resident count read under each shard's own lock after every operation and every eviction event compared with a replayed per-shard LRU; then end-to-end through real servers with tiny caches (with and without a store). Holds on the executions produced, not a proof.",
    "trusts lru.Cache.Len read through the tag-guarded VerifStats hook and the OnEvicted callback of groupcache; sequential access at the dispatcher level (concurrent access is C06/C20)",
    "DESIGN.md 6/C11"),
+ "C14": ("inproc", "exploration",
+   "reference-model monitor over exhaustive/random lookups + end-to-end origin observation",
+   "Exhaustive over ordered tuples of <=3 location shapes (2 hosts x 3 prefixes), name subsets and 15 queries against an independent routing predicate (any member of the best class accepted), sampled 4-tuples and random larger universes with duplicate names; then random configurations through a running server with one origin per location: which origin saw the request, 5xx and no upstream contact when nothing matches.",
+   "the reference predicate encodes the statement (class order prefix+host < prefix < host < none); ties inside a class are not judged",
+   "DESIGN.md 6/C14"),
+ "C04": ("inproc", "exploration",
+   "offline replay of recorded client/origin histories against the cache-entry reference model under a virtual clock; directed hook-point schedule; interval-sound monitor under a ticking clock",
+   "Generated timed histories (lifetimes 1..2^31-1, origin Age none/0/1/T-1, advances landing before/at/after the expiry second, bursts of 1-8) replayed exactly against the entry model in both directions (fresh => hit of the epoch's fetch with Age = elapsed, expired => exactly one refetch that replaces the entry); a directed schedule puts a clock tick between lookup and answer (with and without a refetch in between); a concurrent mode with a ticking clock is judged with interval bounds.",
+   "pike's only clock seam (cache.nowUnix) is virtualised by a tag-guarded hook; no eviction (cache 100000 >> keys); Age arithmetic when the origin sent its own Age is not judged",
+   "DESIGN.md 6/C04"),
+ "C01": ("inproc", "exploration",
+   "origin-side in-flight overlap monitor + per-epoch exactly-once accounting + porcupine linearizability of recorded histories; hook-point directed schedule; race detector",
+   "Bursts of 2-64 identical cold requests on 1-4 keys over 1-3 epochs with the fetch held at the origin until the hook counter shows every other request parked (so coalescing is really exercised), jitter at four hook points between pike's critical sections; the directed schedule of the quantifier (expiry between a waiter's wake-up and its resumption while the next fetcher is in flight); staggered clients with a concurrent clock advancer checked per key with porcupine. Evidence lists parked waiters and distinct interleaving signatures.",
+   "virtual clock and hook points (tag-guarded); no eviction or purge during a fetch (cache 100000 >> keys, asserted through the eviction hook); interleavings are those the stressors produce plus the directed one",
+   "DESIGN.md 6/C01"),
 }
 ALL = ["C%02d" % i for i in range(1, 21)]
 NOT_BUILT_REASON = "no check is registered for this property yet (framework under construction; see DESIGN.md Appendix B build order)"
